@@ -173,6 +173,8 @@ def suite_seq(pid, tier, seed):
     n = spec.get("seq_n", {}).get(tier, 240 if tier == "quick" else 4000)
     rng = random.Random(seed * 1000003 + 17)
     cases = [gen.seq_case(f"s{i}", rng, length=rng.choice([6, 10, 14]), big=0.06) for i in range(n)]
+    brng = random.Random(seed * 7919 + 5)
+    cases += [gen.bulk_case(f"bulk{i}", brng) for i in range(8 if tier == "quick" else 64)]
     real, model = both_sides(f"seq-{tier}-{seed}-{n}", cases, "plain")
     R, M = run.by_case(real), run.by_case(model)
     parts = spec.get("corr", {"ret"})
@@ -186,7 +188,7 @@ def suite_seq(pid, tier, seed):
             diffs.append(f"K2 history correspondence ({'+'.join(sorted(parts))}) differs in case {name}: impl `{d[1]}` vs model `{d[2]}`")
         fs = oracle.seq_oracle(c, rl) + seq_extra_oracle(c, rl)
         for tag, msg in fs:
-            if tag in spec["tags"] or tag == "nofail":
+            if tag in spec["tags"] or tag in ("nofail", "malformed"):
                 failures.append(mk_failure("seq", "plain", c, name, tag, msg))
         muts = sum(1 for l in c.splitlines() if l.split()[0] in ("put", "remove", "remove_range", "abort", "checkpoint", "close"))
         if muts >= 2:
@@ -224,7 +226,7 @@ def suite_crash(pid, tier, seed):
         blocks = oracle.split_crash_blocks(rl)
         points += len(blocks)
         for tag, k, msg in oracle.crash_oracle(c, rl):
-            if tag in spec["tags"] or tag == "nofail":
+            if tag in spec["tags"] or tag in ("nofail", "malformed"):
                 failures.append(mk_failure("crash", "crash-all", c, f"{name}@kill={k}", tag, msg))
         for b in blocks:
             img = hashlib.sha1("\n".join(canon_staging(l) for l in b["lines"] if l.startswith("C ")).encode()).hexdigest()[:16]
@@ -257,7 +259,7 @@ def suite_fault(pid, tier, seed):
             diffs.append(f"K5 fail-at-k correspondence differs in `{h}`: impl `{d[1]}` vs model `{d[2]}`")
         fcall = next((l[8:] for l in rl if l.startswith("T FAULT ")), "")
         for tag, msg in oracle.fault_oracle(bycase[name], rl, h):
-            if tag in spec["tags"]:
+            if tag in spec["tags"] or tag == "malformed":
                 f = mk_failure("fault", "fault:" + h.split("fault=")[1], bycase[name], h[5:], tag, msg)
                 f["fault_call"] = fcall
                 f["fault_op"] = next((l.split(" ", 2)[2].split(" -> ")[0] for l in rl if l.startswith("R ") and " -> err:" in l), "")
@@ -327,7 +329,7 @@ def suite_codec(pid, tier, seed):
                 if int(peak) > 64 * inlen + 8192:
                     failures.append(mk_failure("codec", "codec", line, where, "alloc_bound", f"decoder allocated {peak} bytes for an input of {inlen} bytes"))
             distinct.add("k1:" + hashlib.sha1(line.encode()).hexdigest()[:16])
-    failures = [f for f in failures if f["tag"] in spec["tags"]]
+    failures = [f for f in failures if f["tag"] in spec["tags"] or f["tag"] == "malformed"]
     return dict(evaluations=nlines, distinct=distinct, samples=[dict(suite="codec", lines=[l for l, _ in items[:6]])],
                 diffs=diffs[:5], failures=failures, traces=nlines, stats=dict(lines=nlines, kinds=kinds, diffs=len(diffs)))
 
@@ -363,7 +365,7 @@ def suite_range(pid, tier, seed):
             if l.startswith("R ") and " range " in l:
                 nreq += 1
                 distinct.add("rg:" + name + ":" + l.split(" -> ")[0].split(" ", 2)[2])
-    failures = [f for f in failures if f["tag"] in spec["tags"]]
+    failures = [f for f in failures if f["tag"] in spec["tags"] or f["tag"] == "malformed"]
     return dict(evaluations=nreq, distinct=distinct, samples=[dict(suite="range", case=cases[1].splitlines()[:10])],
                 diffs=diffs[:5], failures=failures, traces=len(cases), stats=dict(cases=len(cases), requests=nreq, diffs=len(diffs)))
 
@@ -417,7 +419,7 @@ def suite_damage(pid, tier, seed):
         if d:
             diffs.append(f"K3 damaged-log correspondence differs in case {name}: impl `{d[1][:160]}` vs model `{d[2][:160]}`")
         for tag, where, msg in oracle.damage_oracle(c, rl):
-            if tag in spec["tags"]:
+            if tag in spec["tags"] or tag == "malformed":
                 failures.append(mk_failure("damage", "damage-all", c, f"{name} {where}", tag, msg))
         for l in rl:
             if l.startswith("D "):
@@ -447,7 +449,7 @@ def suite_settings(pid, tier, seed):
         if d:
             diffs.append(f"K3 settings-gate correspondence differs in case {name}: impl `{d[1][:160]}` vs model `{d[2][:160]}`")
         for tag, msg in oracle.settings_oracle(c, rl) + [(t, m) for t, m in oracle.seq_oracle(c, rl) if t in ("reads", "nofail")]:
-            if tag in spec["tags"] or tag == "nofail":
+            if tag in spec["tags"] or tag in ("nofail", "malformed"):
                 failures.append(mk_failure("settings", "plain", c, name, tag, msg))
         distinct.add("st:" + case_hash(c))
     # pre-created directory tree: real library only (the list-based model is quadratic in 65,536 directories);
@@ -470,7 +472,7 @@ def suite_settings(pid, tier, seed):
             failures.append(mk_failure("settings", "plain", pre_cases[2 * i + 1], f"p{i}pre", "precreate_observable",
                                        f"pre-created directory tree changes behaviour: without `{dd[0][:150]}` with `{dd[1][:150]}`"))
         distinct.add("stp:" + str(i))
-    failures = [f for f in failures if f["tag"] in spec["tags"] or f["tag"] == "nofail"]
+    failures = [f for f in failures if f["tag"] in spec["tags"] or f["tag"] in ("nofail", "malformed")]
     return dict(evaluations=len(cases) + len(pre_cases), distinct=distinct, samples=[dict(suite="settings", case=cases[0].splitlines())],
                 diffs=diffs[:5], failures=failures, traces=len(cases), stats=dict(cases=len(cases), precreate_pairs=npre, diffs=len(diffs)))
 
@@ -491,7 +493,7 @@ def suite_sizes(pid, tier, seed):
         if d:
             diffs.append(f"K2 size-boundary correspondence differs in case {name}: impl `{d[1][:160]}` vs model `{d[2][:160]}`")
         for tag, msg in oracle.seq_oracle(c, rl):
-            if tag in spec["tags"] or tag == "nofail":
+            if tag in spec["tags"] or tag in ("nofail", "malformed"):
                 failures.append(mk_failure("sizes", "plain", c, name, tag, msg[:600]))
         distinct.add("sz:" + case_hash(c))
     return dict(evaluations=sum(c.count("\nput ") for c in cases), distinct=distinct, samples=[dict(suite="sizes", case=cases[3].splitlines())],
@@ -561,7 +563,7 @@ def suite_conc(pid, tier, seed):
             rl = FR.get(name, [])
             nfree += 1
             for tag, msg in oracle.conc_oracle(c, rl):
-                if tag in spec["tags"]:
+                if tag in spec["tags"] or tag == "malformed":
                     sched_txt = "\n".join(" ".join(l.split()[1:6]) for l in rl if l.startswith("S ") and not l.startswith("S init"))
                     free_fail.append(mk_failure("conc", "conc-free", c + f"# model-free exploration, seed {seed * 131 + rd}; observed schedule:\n" + sched_txt + "\n", f"{name} (free round {rd})", tag, msg))
     diffs, failures, distinct = [], [], set()
@@ -574,7 +576,7 @@ def suite_conc(pid, tier, seed):
         if d:
             diffs.append(f"K6/K7 forced-schedule correspondence differs in case {name}: impl `{d[1][:200]}` vs model `{d[2][:200]}`")
         for tag, msg in oracle.conc_oracle(c, rl):
-            if tag in spec["tags"]:
+            if tag in spec["tags"] or tag == "malformed":
                 failures.append(mk_failure("conc", "conc", c + "# schedule (model steps)\n" + "\n".join(" ".join(l.split()[1:6]) for l in ml if l.startswith("S ") and not l.startswith("S init")) + "\n", name, tag, msg))
         nsteps += sum(1 for l in rl if l.startswith("S "))
         distinct.add("cc:" + hashlib.sha1("\n".join(" ".join(l.split()[2:6]) for l in rl if l.startswith("S ")).encode()).hexdigest()[:16])
@@ -617,7 +619,7 @@ def suite_race(pid, tier, seed):
         if d:
             diffs.append(f"K9 open/lock correspondence differs in case {name}: impl `{d[1][:160]}` vs model `{d[2][:160]}`")
         for tag, msg in oracle.race_oracle(c, rl):
-            if tag in spec["tags"]:
+            if tag in spec["tags"] or tag == "malformed":
                 failures.append(mk_failure("race", "race", c, name, tag, msg))
         nev += sum(1 for l in rl if l.startswith("E "))
         distinct.add("rc:" + hashlib.sha1(c.split("\n", 1)[1].encode()).hexdigest()[:16])
@@ -655,7 +657,7 @@ def suite_powerloss(pid, tier, seed):
         blocks = oracle.split_crash_blocks(rl)
         points += len(blocks)
         for tag, k, msg in oracle.crash_oracle(c, rl):
-            if tag in spec["tags"] or tag == "nofail":
+            if tag in spec["tags"] or tag in ("nofail", "malformed"):
                 vic = next((l for b in blocks if b["k"] == k for l in b["lines"] if l.startswith("A ")), "")
                 failures.append(mk_failure("powerloss", "powerloss-all", c, f"{name}@cut={k} {vic[vic.find('victims='):][:200]}", tag, msg))
         for b in blocks:
@@ -682,7 +684,7 @@ def suite_orphans(pid, tier, seed):
         if d:
             diffs.append(f"K3 orphan scan / clean-up correspondence differs in case {name}: impl `{d[1][:200]}` vs model `{d[2][:200]}`")
         for tag, msg in oracle.orphan_oracle(c, rl):
-            if tag in spec["tags"]:
+            if tag in spec["tags"] or tag == "malformed":
                 failures.append(mk_failure("orphans", "plain", c, name, tag, msg))
         distinct.add("or:" + case_hash(c))
     return dict(evaluations=len(cases), distinct=distinct, samples=[dict(suite="orphans", case=cases[0].splitlines())],
